@@ -358,6 +358,10 @@ _EMK = [f + "::numba_em_cooccurrence_iteration" for f in ("vectorizers/token_coo
 for _p in ("C10", "C11"):
     PROPS[_p]["functions"] += _EMK
 
+# the multiset kernels (one weight per element of the flattened window): shape, target and offset semantics, non-negativity
+for _p in ("C03", "C14", "C10"):
+    PROPS[_p]["functions"] += [WK + "multi_flat_kernel", WK + "multi_geometric_kernel"]
+
 # C04: the document chunks handed to the worker threads partition the corpus (for every n_threads and every corpus)
 PROPS["C04"]["functions"] += ["vectorizers/base_cooccurrence_vectorizer.py::BaseCooccurrenceVectorizer._generate_chunk_boundaries",
                               "vectorizers/multi_token_cooccurence_vectorizer.py::MultiSetCooccurrenceVectorizer._generate_chunk_boundaries#partition"]
